@@ -28,6 +28,30 @@ pub struct Report {
     pub replay_dir: Option<PathBuf>,
     #[serde(skip)]
     pub max_stored: usize,
+    /// stored violations per signature (site + description with digits and quoted text removed), so
+    /// that many occurrences of one finding cannot crowd out a different violation
+    #[serde(skip)]
+    pub per_sig: BTreeMap<String, usize>,
+}
+
+fn signature(site: &str, what: &str) -> String {
+    let mut out = String::from(site);
+    out.push(':');
+    let mut in_quote = false;
+    for c in what.chars() {
+        if c == '"' {
+            in_quote = !in_quote;
+            continue;
+        }
+        if in_quote || c.is_ascii_digit() {
+            continue;
+        }
+        out.push(c);
+        if out.len() > 90 {
+            break;
+        }
+    }
+    out
 }
 
 impl Report {
@@ -35,14 +59,17 @@ impl Report {
         Report {
             property: property.to_string(),
             replay_dir,
-            max_stored: 25,
+            max_stored: 200,
             ..Default::default()
         }
     }
     /// Record a violation; `case` must contain everything needed to reproduce it.
     pub fn violation(&mut self, site: &str, what: &str, case: Value) {
         self.violation_count += 1;
-        if self.violations.len() < self.max_stored {
+        let sig = signature(site, what);
+        let n = self.per_sig.entry(sig).or_insert(0);
+        *n += 1;
+        if *n <= 3 && self.violations.len() < self.max_stored {
             let mut path = String::new();
             if let Some(dir) = &self.replay_dir {
                 let _ = std::fs::create_dir_all(dir);
@@ -78,7 +105,10 @@ impl Report {
         self.violation_count += o.violation_count;
         self.drift_count += o.drift_count;
         for v in o.violations {
-            if self.violations.len() < self.max_stored {
+            let sig = signature(v["site"].as_str().unwrap_or(""), v["what"].as_str().unwrap_or(""));
+            let n = self.per_sig.entry(sig).or_insert(0);
+            *n += 1;
+            if *n <= 6 && self.violations.len() < self.max_stored {
                 self.violations.push(v);
             }
         }
